@@ -132,6 +132,56 @@ def refusal (has : G → Bool) : List T → Option (T × G)
     | some g => some (t, g)
     | none => refusal has ts
 
+/-! ### the target list of a declaration (`Parser.visitTargets`)
+
+`record +a +b`, `interface -x`, `function +a +b (…)`: the flags are evaluated to a *list*. For an inline function type
+the list is written into the synthetic name of the type (`function_<targets…>_<signature>`), hence into file names and
+include lines: its order is output. The implementation computes it with lists only (first occurrence of every `+t`, or
+the registry order for `+any` / pure exclusions); nothing is iterated in a hash-dependent order. -/
+
+inductive TFlag
+  | any                   -- `+any`
+  | plus (t : String)     -- `+t`
+  | minus (t : String)    -- `-t`
+deriving DecidableEq, Repr
+
+/-- the `for target in targets` loop on the include list: every `+t` once, at its first occurrence -/
+def addIncl : List String → List TFlag → List String
+  | acc, [] => acc
+  | acc, .plus t :: fs => if acc.contains t then addIncl acc fs else addIncl (acc ++ [t]) fs
+  | acc, _ :: fs => addIncl acc fs
+
+def exclOf : List TFlag → List String
+  | [] => []
+  | .minus t :: fs => t :: exclOf fs
+  | _ :: fs => exclOf fs
+
+def hasAny : List TFlag → Bool
+  | [] => false
+  | .any :: _ => true
+  | _ :: fs => hasAny fs
+
+/-- `includes` after the loop and after `if (not includes) and excludes: includes = list(self.target_keys)` -/
+def inclOf (keys : List String) (flags : List TFlag) : List String :=
+  let i := addIncl (if hasAny flags then keys else []) flags
+  if i.isEmpty && !(exclOf flags).isEmpty then keys else i
+
+/-- `[include for include in includes if include not in excludes]` -/
+def evalFlags (keys : List String) (flags : List TFlag) : List String :=
+  (inclOf keys flags).filter (fun i => !(exclOf flags).contains i)
+
+/-- `self.visit(ctx.targets()) or self.target_keys` (interfaces, function types) -/
+def targetsOrKeys (keys : List String) (flags : List TFlag) : List String :=
+  let t := evalFlags keys flags
+  if t.isEmpty then keys else t
+
+/-- the same elements taken out of a set: `iter` is the set's iteration order (any enumeration of the target names) -/
+def evalFlagsBySet (iter keys : List String) (flags : List TFlag) : List String :=
+  iter.filter (fun t => (evalFlags keys flags).contains t)
+
+/-- the leading parts of the synthetic name of an inline function type (joined with `_`, then the signature) -/
+def anonHead (targets : List String) : List String := "function" :: targets
+
 /-- a program *as the front end resolves it under one configuration* (root file, search path): files read, declarations
     handed to the generators. `accepted = false`: the front end refuses it (unresolvable `@import`, unknown type, …) —
     `parse` raises after the targets were configured and the files were read, and returns no generate context.
